@@ -44,10 +44,15 @@ def class_methods(ctx):
     return {}
 
 
+HMULT = {}      # locals of the analysed method that name a multiple of h (`two_h = 2*h`): name -> coefficient
+
+
 def coef_of_h(node, hname='h'):
     """c such that node == c*h (sympy), else None"""
     try:
-        e = sp.sympify(src(node), locals={hname: H})
+        loc = {hname: H}
+        loc.update({n_: c_ * H for n_, c_ in HMULT.items()})
+        e = sp.sympify(src(node), locals=loc)
     except Exception:
         return None
     c = sp.simplify(e / H)
@@ -85,6 +90,14 @@ class Interp:
             return
         t, v = s.targets[0], s.value
         tt = src(t)
+        # a local that names a multiple of the step
+        if isinstance(t, ast.Name) and t.id != 'h' and any(isinstance(n_, ast.Name) and (n_.id == 'h' or n_.id in HMULT) for n_ in ast.walk(v)):
+            c_ = coef_of_h(v)
+            if c_ is not None:
+                HMULT[t.id] = c_
+                return
+        elif isinstance(t, ast.Name) and t.id in HMULT:
+            del HMULT[t.id]
         # array copies
         if isinstance(t, ast.Name) and isinstance(v, ast.Call) and src(v.func) in ('np.array', 'np.copy', 'numpy.array') and v.args \
                 and isinstance(v.args[0], ast.Name) and (v.args[0].id in self.xoff):
@@ -263,6 +276,7 @@ def analyse_stencil(it, target, expr, mode, coord, comp_expected, p):
 
 
 def run_method(ctx, fname, mode):
+    HMULT.clear()
     f = get_method(ctx, fname)
     where = ctx.loc('analysis', f)
     # locate the loops
@@ -509,6 +523,17 @@ def check(ctx):
     c03.check_derivative(sub)
     for rule, key, ok, where, what, detail in sub.got:
         ctx.ob('R18.3-rate-equations', '%s/%s' % (rule, key), ok, where, what, detail)
+    # ... with rate(x, t) the documented closed forms (C01, deterministic mode), evaluated without hidden state: a stencil evaluates the
+    # model repeatedly at one state with different parameters, so a memo keyed on the state alone freezes the derivative (C08 R8.7)
+    from . import c01, c08
+    for m_ in ('types', 'types.pxd', 'random', 'lineage', 'lineage.pxd', 'inference'):
+        ctx.prog.mod(m_)
+    c01.reemit(ctx, 'R18.3-rate-equations', 'deterministic', ('compute_propensities',))
+    sub = SubCtx(ctx)
+    c08.check_pure_evaluation(sub)
+    for rule, key, ok, where, what, detail in sub.got:
+        if rule == 'R8.7-pure-evaluation' and key in ('methods', 'module-state'):
+            ctx.ob('R18.3-rate-equations', '%s/%s' % (rule, key), ok, where, what, detail)
     ctx.floor('R18.1-stencil', 8)
     ctx.floor('R18.2-orientation', 8)
     ctx.floor('R18.4-restore', 8)
